@@ -8,7 +8,8 @@ Templates == <<
   "[ref][] and [r2]\n\n[ref]: http://x \"T\"\n[r2]: y", "> quoted line", "* item one\n* item two", "1. first\n2. second", "| a | b |\n|---|:-:|\n| c | d |\n[cap]",
   "Title: value\nAuthor: me\n\nbody [%title]", "fn[^f] cite[#c]\n\n[^f]: note\n\n[#c]: cite", "x^sup^ y~sub~", "\"dq\" 'sq' -- --- ...", "<http://auto.link/x>", "two  \nhard\\\nbreaks",
   "{++add++}{--del--}{~~a~>b~~}{>>c<<}{==h==}", "$x+y$ \\\\(z\\\\)", "term\n: definition", "```lang\ncode\n```", "    indented code", "[>ab]: Abbr\n\nab here", "{{TOC}}\n\n# One\n\n## Two [lbl]",
-  "<div>html</div>\n\n<!-- c -->", "a &amp; b &#x41; &copy;", "\\*esc\\* \\[b\\]", "[?g]: gloss\n\n[?g]", "- - -\n\n***" >>
+  "<div>html</div>\n\n<!-- c -->", "a &amp; b &#x41; &copy;", "\\*esc\\* \\[b\\]", "[?g]: gloss\n\n[?g]", "- - -\n\n***",
+  "![alt](img.png width=\"50px\" height=2cm)", "Title: value\nAuthor: me", "![i][r] [l][r]\n\n[r]: p.png \"T\" width=40px class=\"c\"", "Key: v\nOther Key: w\n\n# h [%key]" >>
 VARIABLE c
 Pick(S) == IF Sim THEN {RandomElement(S)} ELSE S
 Cases == {[t |-> t, p |-> p, cp |-> n, cp2 |-> "", nl |-> nl] : t \in Pick(1 .. Len(Templates)), p \in 0 .. 80, n \in Pick(DOMAIN CPs), nl \in Pick(BOOLEAN)}
